@@ -31,7 +31,9 @@ from ..sim import fakeapi, runner, simloop
 KEX = fakeapi.KEX
 CTHING = fakeapi.ResourceDef("kopf.dev", "v1", "clusterthings", "ClusterThing", namespaced=False)
 WIDGET = fakeapi.ResourceDef("example.org", "v1", "widgets", "Widget", namespaced=True)
-RES_BY_NAME = {"kopfexamples": KEX, "clusterthings": CTHING, "widgets": WIDGET}
+RES_BY_NAME = {"kopfexamples": KEX, "clusterthings": CTHING, "widgets": WIDGET,
+               # the meta resources: only for `break` / `compact` of the observers' own watch-streams
+               "namespaces": fakeapi.NAMESPACES, "customresourcedefinitions": fakeapi.CRDS}
 
 
 class _AsyncioProxy:
@@ -524,6 +526,26 @@ def run_operator(sc: dict, wall_limit: float = 60.0) -> dict:
         op = runner.Operator(cluster, reg, settings, identity="c19", **kw)
         bump = {"n": 0}
         checkpoints: list[dict] = []
+        # the cluster → insights layer: what the namespace observer was fed, and what the insights held afterwards
+        from kopf._core.reactor import observation
+        ns_feed: list = []
+        orig_revise = observation.revise_namespaces
+
+        def obs_revise(*, insights: Any, namespaces: Any, raw_events: Any = (), raw_bodies: Any = ()) -> None:
+            orig_revise(insights=insights, namespaces=namespaces, raw_events=raw_events, raw_bodies=raw_bodies)
+            if raw_bodies:      # the observer's own first listing
+                ns_feed.append({"t": loop.time(), "kind": "listing0", "names": [b["metadata"]["name"] for b in raw_bodies],
+                                "after": sorted(str(n) for n in insights.namespaces)})
+
+        orig_process = observation.process_discovered_namespace_event
+
+        async def obs_process(*, raw_event: Any, namespaces: Any, insights: Any, **kw: Any) -> None:
+            await orig_process(raw_event=raw_event, namespaces=namespaces, insights=insights, **kw)
+            ns_feed.append({"t": loop.time(), "kind": "event", "type": raw_event["type"],
+                            "name": raw_event["object"]["metadata"]["name"],
+                            "after": sorted(str(n) for n in insights.namespaces)})
+        observation.process_discovered_namespace_event = obs_process  # type: ignore[assignment]
+        observation.revise_namespaces = obs_revise  # type: ignore[assignment]
 
         def open_watches() -> list:
             return sorted([[w.res.plural, w.ns] for w in cluster.watches if not w.closed],
@@ -604,6 +626,7 @@ def run_operator(sc: dict, wall_limit: float = 60.0) -> dict:
                     "watch_requests": [{"t": r["t"], "path": r["path"], "since": r["query"].get("resourceVersion"),
                                         "response": r["response"]} for r in cluster.requests
                                        if r["method"] == "GET" and r["query"].get("watch") == "true"],
+                    "ns_feed": ns_feed,
                     "not_found": sorted({r["path"].rstrip("/").split("/")[-1] for r in cluster.requests
                                          if r["method"] == "GET" and r["response"] == 404}),
                     "not_found_at": {r["path"].rstrip("/").split("/")[-1]: r["t"] for r in cluster.requests
@@ -611,7 +634,8 @@ def run_operator(sc: dict, wall_limit: float = 60.0) -> dict:
                     "history": {f"{k[0][2]}/{k[1]}/{k[2]}": [[v["t"], v["event"], v["body"]["metadata"]["resourceVersion"]] for v in vs]
                                 for k, vs in cluster.history.items() if k[0][2] not in META}}
         finally:
-            pass
+            observation.revise_namespaces = orig_revise  # type: ignore[assignment]
+            observation.process_discovered_namespace_event = orig_process  # type: ignore[assignment]
 
     try:
         return simloop.run_sim(main, wall_limit=wall_limit)
